@@ -55,6 +55,10 @@ CHECKS["C07"]=dict(level="model_checking", ref="§C07",
    technique="finite product enumeration over all 65536 port addresses x read/write x device configurations, executed by the emulated CPU, plus all T-states for the floating bus",
    text="Every one of the 65536 port addresses is read (IN A,(C)) and written (OUT (C),A) by the emulated CPU on 20 (quick) / 32 (thorough) configurations of machine x Kempston x mouse x extender claim set; each device answers with a distinct byte, write effects are observed on border, paging latch, AY read-back and the extender log; a three-valued claim table transcribed from the statement decides which accesses are judged (exactly one claimant, none possible). The floating bus is read at every T of the frame on 48K, 128K and 128K with the shadow screen; EAR on bit 6 follows the tape level.",
    note="Not judged: ports selecting two devices, the wider A0=1/A5=0 family for the mouse, phase of the floating bus inside the fetch window (+-8 T).")
+CHECKS["C08"]=dict(level="exploration", ref="§C08",
+   technique="finite product enumeration of screen contents x writers x configurations with a pixel-exact reference decode; every store time around the ULA fetch for the beam clause",
+   text="Latin-square screen contents (every one of the 6912 addresses meets every byte value across the 256 frames of the thorough tier, 32 in quick) and 26 address-line frames are put into display memory by eight writers (LDIR, CPU store loop, poke, tape fast load through the ROM, SNA, SZX stored/zlib, SCR) on four machine/screen-bank configurations; after two unchanged frames all 49152 pixels must equal the standard decode of the displayed bank; FLASH period over 48 frames, paging bit 3 switched between frames, and for picture lines x 3 columns every store time from 90 T before to 70 T after the ULA fetch decides current/next frame.",
+   note="Exploration level: contents are an arranged cover, not all 2^55296 screens; cell-locality of the decode is the argument for the arrangement. Not judged: first FLASH phase, +-16 T around the fetch.")
 NOT_YET = {
 }
 def main():
